@@ -140,10 +140,10 @@ pub fn spec(id: &str) -> Option<PropSpec> {
         "C04" => PropSpec {
             id: "C04",
             level: "exploration",
-            families: vec![(Family::C04, 100)],
-            quick_runs: 20_000,
-            thorough_runs: 1_500_000,
-            rule: "one run = 2..10 requests owing responses (PUBLISH QoS1/2, PUBREL, SUBSCRIBE, UNSUBSCRIBE, PINGREQ) arriving in one read or many, each handler gated and completed in a seeded order (mix of immediate and deferred); distinct = distinct abstract history signature; non-trivial = at least two handler invocations overlapped and completed in an order different from arrival",
+            families: vec![(Family::C04, 60), (Family::C04X, 40)],
+            quick_runs: 22_000,
+            thorough_runs: 1_800_000,
+            rule: "two families. (1) C04X, enumeration: a set of 2..4 concurrent requests owing responses (PUBLISH QoS 1/2, SUBSCRIBE, UNSUBSCRIBE, PINGREQ) is drawn from one seed; then EVERY completion order (all n! permutations of the handler invocations, numbered in the order they start) combined with EVERY mix of immediately-completing and deferred handlers (all 2^n masks) is executed in all four roles, every other draw (request contents, fragmentation, placement of deliveries, write stalls in a third of the sets) being identical: 1760 points per request set; an order that the endpoint cannot produce (protocol requests are started one at a time) runs as far as it goes and is completed in the closing phase. (2) C04, seeded: 2..10 requests (also PUBREL and, on MQTT 5 servers, AUTH) arriving in one read or many, each handler gated and completed in a seeded order (mix of immediate and deferred), with and without write back-pressure episodes (stalls, byte-wise write grants). Oracle: every response on the wire is mapped to its request; request indices strictly increase, no duplicate, and no response is lost on a healthy settled connection; distinct = distinct abstract history signature; non-trivial = at least two handler invocations overlapped and completed in an order different from arrival",
             nontrivial: nt_c04,
             assumptions: base,
         },
